@@ -182,6 +182,10 @@ class CallMixin(ExprMixin):
             return
         line = node.lineno
         env, argkey = self.bind_params(c, recv, pos, kw, st, node)
+        new_ref = None
+        if recv == "new":
+            new_ref = V.fresh(c.returns, "new_" + (c.returns.name or "obj"))
+            env["self"] = new_ref
         if c.kind == "assumed":
             self.used_assumed[c.key] = self.used_assumed.get(c.key, 0) + 1
         pre = st.snapshot()
@@ -209,9 +213,7 @@ class CallMixin(ExprMixin):
         for m in c.modifies:
             self.havoc_target(m, env, post_env, post, c, modified_params)
         if recv == "new":
-            r = V.fresh(c.returns, "new_" + c.returns.name if c.returns.kind == "ref" else "new")
-            post_env["self"] = r
-            result = r
+            result = new_ref
         else:
             result = V.fresh(c.returns, "ret_" + c.key.replace(".", "_")) if c.returns.kind != "none" else V.NONE
         post_env["result"] = result
